@@ -50,8 +50,8 @@ LogOps   == {"and", "or"}
 
 LeafAll(tier)   == IF tier = "quick" THEN {Ref("x"), Ref("p"), Ref("c"), Ref("u"), Ref("k"), Ref("time"), Der(Ref("x")), Lit(Q(1, 2))}
                    ELSE {Ref("x"), Ref("y"), Ref("p"), Ref("c"), Ref("u"), Ref("k"), Ref("time"), Der(Ref("x")), ILit(2), Lit(Q(1, 2))}
-LeafInner(tier) == IF tier = "quick" THEN {Ref("x"), ILit(2)} ELSE {Ref("x"), Ref("y"), Ref("k"), ILit(2)}
-LeafOuter(tier) == IF tier = "quick" THEN {Ref("y"), Lit(Q(1, 2))} ELSE {Ref("y"), Ref("p"), Der(Ref("x")), Lit(Q(1, 2))}
+LeafInner(tier) == IF tier = "quick" THEN {Ref("x"), ILit(2)} ELSE {Ref("x"), Ref("y"), ILit(2)}
+LeafOuter(tier) == IF tier = "quick" THEN {Ref("y"), Lit(Q(1, 2))} ELSE {Ref("y"), Ref("p"), Lit(Q(1, 2))}
 
 NumOp(op, a, b) == IF op \in {"min", "max"} THEN Call(op, <<a, b>>) ELSE Bin(op, a, b)
 NumBin == ArithOps \cup {"min", "max"}
@@ -71,8 +71,9 @@ Inner1(tier) == IF tier = "quick"
                 ELSE Num1(LeafInner(tier))
 CondA(tier) == IF tier = "quick" THEN {Bin(op, Ref("x"), Ref("y")) : op \in RelOps} ELSE Bool1({Ref("x"), Ref("y")})
 CondB(tier) == IF tier = "quick" THEN {Bin("<", Ref("y"), Ref("p")), Bin(">=", Ref("y"), Ref("p")), Bin("==", Ref("y"), Ref("p"))}
-               ELSE Bool1({Ref("y"), Ref("p")})
-CondI(tier) == IF tier = "quick" THEN CondA(tier) \cup {Bin(">", Ref("x"), ILit(2)), Bin("<=", ILit(2), Ref("x"))} ELSE Bool1(LeafInner(tier))
+               ELSE {Bin(op, Ref("y"), Ref("p")) : op \in RelOps}
+CondI(tier) == IF tier = "quick" THEN CondA(tier) \cup {Bin(">", Ref("x"), ILit(2)), Bin("<=", ILit(2), Ref("x"))}
+               ELSE CondA(tier) \cup Bool1({Ref("x"), ILit(2)})
 NumExprs(tier) ==
     (IF tier = "quick" THEN Num1Q(LeafAll(tier), {Ref("y"), ILit(2)}) ELSE Num1(LeafAll(tier)))
     \cup {NumOp(op, a, b) : op \in NumBin, a \in Inner1(tier), b \in LeafOuter(tier)}
@@ -154,7 +155,8 @@ VecEqs(n) ==    \* equation lists over z[n], w[n]
           THEN {<<ForEq("i", I(1), I(n - 1), <<Eq(Idx("z", <<Bin("+", Ri, I(1))>>), Idx("z", <<Ri>>))>>)>>,
                 <<ForEq("i", I(2), I(n), <<Eq(Idx("z", <<Bin("-", Ri, I(1))>>), Bin("*", Ri, Idx("w", <<Ri>>)))>>)>>,
                 <<ForStepEq("i", I(1), I(2), I(n), <<Eq(Idx("z", <<Ri>>), Bin("*", Ri, Ref("x")))>>)>>,
-                <<ForStepEq("i", I(1), I(1), I(n), <<Eq(Idx("z", <<Ri>>), Bin("+", Ri, Idx("w", <<Ri>>)))>>)>>}
+                <<ForStepEq("i", I(1), I(1), I(n), <<Eq(Idx("z", <<Ri>>), Bin("+", Ri, Idx("w", <<Ri>>)))>>)>>,
+                <<ForStepEq("i", I(1), I(2), I(n - 1), <<Eq(Idx("z", <<Ri>>), Bin("-", Ri, Idx("w", <<Ri>>)))>>)>>}
           ELSE {})
 
 MatEqs(r, c) ==   \* A, B: r x c; v: c; q: r
